@@ -881,7 +881,16 @@ func parseStatsGroupOp(op GroupOperator, value []byte, table TableName, stats *[
 	if err != nil {
 		return err
 	}
-	(*stats)[len(*stats)-1].statsType = Counter
+	group := (*stats)[len(*stats)-1]
+	for _, sub := range group.filter {
+		switch sub.statsType {
+		case Sum, Average, Min, Max:
+			// aggregates have no condition which could be combined
+			return fmt.Errorf("%s stats cannot be combined with StatsAnd or StatsOr", sub.statsType.String())
+		default:
+		}
+	}
+	group.statsType = Counter
 
 	return
 }
